@@ -220,6 +220,7 @@ PROPS["C05"] = {
              "then an invalid tuple (no subject / unknown namespace / unknown subject-set namespace) at every position (sampled for large requests, always including both sides of a chunk boundary); an L2 monitor requires one BEGIN, one COMMIT and every write statement on that connection. "
              "mode crash / crash-wal: file-backed SQLite (rollback journal / WAL); at every statement k all connections die and the database files are copied as a kill -9 would leave them; the copy is reopened: state in {before} (the commit had not run), and after a crash right after the acknowledgement: exactly after. "
              "mode isolation / isolation-wal (tier T): a writer toggling transact(insert X, delete Y) is parked before each of its statements while readers (REST list, gRPC list with paging, two checks) run to completion; the recorded history (event sequence numbers) is checked with porcupine against a two-state model. "
+             "mode stmt-interleave (tier T, generalised): the toggling transaction (real PATCH handler) and one or two single-page listings run inside one scheduler bubble; every SQL statement and every acquisition of pop's SQLite mutexes is a scheduling point, so the whole transaction can also fall between two statements of one reader; a listing that answers shows the state before or after, and the stored state afterwards matches the acknowledgement. "
              "non-trivial = request touches >= 2 tuples (isolation: at least one read overlapped the transaction); distinct = hash of request shape and pre-state."),
     "probes": ["probe_multi_chunk_insert", "probe_multi_chunk_delete", "probe_direct_manager_call", "failed_atomically", "invalid_positions", "invalid_positions_manager", "fault_crash", "fault_crash_after_ack", "reads_during_transaction", "porcupine_ok", "probe_reader_and_writer_interleaved"],
     "real": REAL_S + ["SQLite file locking, rollback journal and WAL recovery (file-backed database in crash / isolation modes)", "porcupine v1.3.0 linearizability checker (isolation modes)"], "stub": STUB_S + ["crash = death of every connection + copy of the database files at that instant; power loss / torn pages / fsync lies are below any keto code and not modelled"],
@@ -291,7 +292,8 @@ PROPS["C14"] = {
               {"name": "race", "runs": {"quick": 70, "thorough": 2000}, "chunk": 5, "race": True}],
     "rule": ("mode '' (tier E): one run = a fixed generated store and configuration whose single-request answer cannot depend on the schedule (rewrite-free or ||-only, limits non-binding) and 2-6 requests (check, batch check of 2-4 tuples, expand, list) started together in one synctest bubble; "
              "4 (quick) / 12 (thorough) tape-chosen interleavings of ALL their storage calls; every concurrent result must equal the result of the same request run alone. "
-             "mode 'handlers' (tier E): the requests are REST requests through the real check / expand / list handlers (on the L1-wrapped dependencies, private routers) inside the bubble, among them 2-3 checks of the SAME tuple with different max-depth values on a chain where depth decides; every (status, body) must equal the one obtained alone. "
+             "mode 'handlers' (tier E): the requests are REST requests through the real check / expand / list handlers (on the L1-wrapped dependencies, private routers) inside the bubble, among them 2-3 checks of the SAME tuple with different max-depth values on a chain where depth decides; every (status, body) must equal the one obtained alone. In a third of the executions of mode '' the request in front is cancelled by its client at a tape-chosen instant (preferably one with an identical twin in flight); the others must answer as alone. "
+             "mode 'statements': mode handlers with every SQL statement and every acquisition of pop's SQLite mutex as additional scheduling points (requests interleave inside one storage call), and in half of the runs an earlier list / expand request has met an I/O, busy or context fault at one of its SQL statements first: what a failed request leaves behind in the process must not reach the others. "
              "mode 'race' (-race build, GOMAXPROCS=1): a FRESH registry per run (no member warmed up) receives a burst of 3-8 concurrent read and write requests through the real routers and gRPC servers; the race detector works on happens-before, so unordered accesses are flagged without real parallelism; "
              "a report halts the worker and is confirmed in a fresh process. non-trivial = the request set mixes at least two kinds (race: every burst); distinct = hash of (config, tuples, requests)."),
     "probes": ["probe_one_request_cancelled", "probe_cancelled_request_has_twin", "probe_requests_interleaved", "kind_check", "kind_batch", "kind_expand", "kind_list", "concurrent_requests", "probe_shared_group_gadget", "probe_duplicate_requests", "stragglers_completed_late", "probe_depth_decides", "handler_requests"],
